@@ -104,6 +104,8 @@ func scSites(mode string) func(x *vs.Exec) {
 				return reject("no work conn")
 			case mode == "user-reject" && op == plugin.OpNewUserConn:
 				return reject("no user conn")
+			case mode == "close-error" && op == plugin.OpCloseProxy:
+				return nil, nil, fmt.Errorf("plugin unreachable")
 			}
 			return accept()
 		}
@@ -196,7 +198,13 @@ func scSites(mode string) func(x *vs.Exec) {
 		}
 		// close notifications: explicit close and session end
 		p.log = nil
-		if strings.HasPrefix(r, "ok") && !a.Closed {
+		if mode == "close-error" && strings.HasPrefix(r, "ok") {
+			// the session ends with three proxies while the plugin fails every notification: each is still attempted
+			a.Reg(&msg.NewProxy{ProxyName: "t2", ProxyType: "tcp", RemotePort: 20003})
+			a.Reg(&msg.NewProxy{ProxyName: "t3", ProxyType: "tcp", RemotePort: 20000})
+			w.Quiesce()
+			a.Cut()
+		} else if strings.HasPrefix(r, "ok") && !a.Closed {
 			a.Reg(&msg.NewProxy{ProxyName: "t2", ProxyType: "tcp", RemotePort: 20003})
 			a.CloseProxy("t")
 			w.Quiesce()
@@ -216,6 +224,9 @@ func scSites(mode string) func(x *vs.Exec) {
 			if mode != "proxy-reject" {
 				want = "[t t2]"
 			}
+			if mode == "close-error" {
+				want = "[t t2 t3]"
+			}
 			if fmt.Sprint(closes) != want {
 				vs.Fail("%s: close-proxy notifications %v, proxies that stopped %s", mode, closes, want)
 			}
@@ -225,7 +236,7 @@ func scSites(mode string) func(x *vs.Exec) {
 	}
 }
 
-var modes = []string{"accept", "login-rewrite", "login-reject", "login-error", "proxy-rewrite", "proxy-reject", "proxy-error", "ping-reject", "work-reject", "user-reject"}
+var modes = []string{"accept", "login-rewrite", "login-reject", "login-error", "proxy-rewrite", "proxy-reject", "proxy-error", "ping-reject", "work-reject", "user-reject", "close-error"}
 
 func scenarios() {
 	for _, m := range modes {
@@ -238,7 +249,7 @@ func main() {
 	if c == nil {
 		return
 	}
-	c.Rule("E1: real frps with an in-memory plugin registered for all operations; 10 plugin behaviours (accept, rewrite login user, reject / error on login, rewrite remote port, reject / error on new proxy, reject ping, reject work connection, reject user connection); oracle: the server acts on the rewritten content, refused operations leave nothing behind, rejected pings do not refresh liveness, close notifications = proxies that stopped (explicit close and session end); all schedules with at most B deviations")
+	c.Rule("E1: real frps with an in-memory plugin registered for all operations; 10 plugin behaviours (accept, rewrite login user, reject / error on login, rewrite remote port, reject / error on new proxy, reject ping, reject work connection, reject user connection, error on every close notification); oracle: the server acts on the rewritten content, refused operations leave nothing behind, rejected pings do not refresh liveness, close notifications = proxies that stopped (explicit close and session end); all schedules with at most B deviations")
 	for i, m := range modes {
 		c.ExploreBoth("site/"+m, drv.Pick(c, 1, 2), 1.0/float64(len(modes)-i))
 	}
